@@ -598,6 +598,7 @@ func C03(c *core.Ctx) {
 	// (4) partition tables: their own generator and judge (outside = 0 and previous content kept)
 	sub := core.NewCtx("C03", c.Tier, c.Level)
 	ptRun(sub, "C03")
+	ptForeignRegrow(sub)
 	c.Absorb(sub)
 	// (6) the composition (Disk.tla): table + three slots, the frame clause of Disk_Trace
 	dkRunAll(c, "C03")
